@@ -229,15 +229,20 @@ def run_and_validate(run, sessions, label, keys=False, timeouts_reproduce=False,
         run.log("%d session(s) killed or hung the driver process" % len(faults))
     ns, nev, rejected = validate_traces(run, "ExecTrace.tla", "ExecTrace.cfg" if keys else "ExecTraceNoKeys.cfg", tp)
     run.log("%s: %d sessions, %d events validated, %d rejected" % (label, ns, nev, len(rejected)))
-    # timeouts are an infrastructure matter unless they reproduce (handled by C09)
+    # A watchdog timeout is a verdict only if the same session hangs again, alone, with ten times the budget (twice);
+    # if it does not, the session is judged by its isolated re-run.  Up to three timed-out sessions are examined.
+    def is_hang(evs, idx):
+        return any(e.get("ev") == "timeout" for e in evs) and (idx is None or evs[idx].get("ev") == "timeout")
     hung_confirmed = set()
+    examined = 0
     for sid, evs, idx in rejected:
         sess = by_id.get(sid)
-        if any(e.get("ev") == "timeout" for e in evs) and not hung_confirmed:
-            if not timeouts_reproduce:
-                raise Infra("session %s hit the driver watchdog (not a verdict): %s" % (sid, json.dumps(sess)[:400]))
-            # a hang is a verdict only if the same session hangs again, alone, with ten times the budget
+        if is_hang(evs, idx):
+            if hung_confirmed or examined >= 3:
+                continue
+            examined += 1
             n_to = 0
+            good = []
             for k in range(2):
                 rs = os.path.join(run.scratch, "sessions-repro%d.ndjson" % k)
                 rt = os.path.join(run.scratch, "traces-repro%d.ndjson" % k)
@@ -245,11 +250,27 @@ def run_and_validate(run, sessions, label, keys=False, timeouts_reproduce=False,
                     if os.path.exists(p):
                         os.remove(p)
                 write_ndjson(rs, [sess])
-                run_driver(run, binary, rs, rt, nshards=1, extra=("-calltimeout", "60s"), timeout=3600)
-                n_to += 1 if any(e.get("ev") == "timeout" for e in read_ndjson(rt)) else 0
-            if n_to < 2:
-                raise Infra("session %s hit the driver watchdog but did not hang again twice alone (not a verdict)" % sid)
-            hung_confirmed.add(sid)
+                run_driver(run, binary, rs, rt, nshards=1, extra=("-calltimeout", "60s" if timeouts_reproduce else "200s"), timeout=3600)
+                if any(e.get("ev") == "timeout" for e in read_ndjson(rt)):
+                    n_to += 1
+                else:
+                    good.append(rt)
+            if n_to >= 2:
+                hung_confirmed.add(sid)
+                key, what = summarize(sess, evs, idx)
+                run.violation(key, {"session": sess, "trace": evs, "rejected_event_index": idx,
+                                    "spec": "ExecTrace.tla", "how_to_replay": "bin/check replay <this file>"},
+                              what + " (the call never returned: hung again twice, alone, with ten times the budget)")
+                continue
+            if not good:
+                raise Infra("session %s hit the driver watchdog and no isolated re-run completed (not a verdict)" % sid)
+            _, _, rej2 = validate_traces(run, "ExecTrace.tla", "ExecTrace.cfg" if keys else "ExecTraceNoKeys.cfg", good[0], chunks=1)
+            run.log("session %s: watchdog timeout not reproduced; its isolated re-run was %s" % (sid, "rejected" if rej2 else "accepted"))
+            for sid2, e2, i2 in rej2:
+                key, what = summarize(sess, e2, i2)
+                run.violation(key, {"session": sess, "trace": e2, "rejected_event_index": i2,
+                                    "spec": "ExecTrace.tla", "how_to_replay": "bin/check replay <this file>"}, what)
+            continue
         key, what = summarize(sess, evs, idx)
         run.violation(key, {"session": sess, "trace": evs, "rejected_event_index": idx,
                             "spec": "ExecTrace.tla", "how_to_replay": "bin/check replay <this file>"}, what)
